@@ -157,6 +157,7 @@ struct Stats {
     out_of_order_completions: u64,
     window_slots_held_by_completed: u64,
     source_pending_returns: u64,
+    quiescence_checks: u64,
     tasks_cancelled: u64,
     max_window: usize,
 }
@@ -763,6 +764,7 @@ fn report(rec: &mut Recorder, case: &Case, out: &RunOut, executor: &str) {
     rec.add("out_of_order_completions", s.out_of_order_completions);
     rec.add("window_slots_held_by_completed", s.window_slots_held_by_completed);
     rec.add("source_pending_returns", s.source_pending_returns);
+    rec.add("mt_quiescence_checks", s.quiescence_checks);
     rec.add("tasks_cancelled_by_early_exit", s.tasks_cancelled);
     if case.api != Api::Par && case.n > 0 {
         rec.seen("max_window_vs_w", format!("{}of{}", s.max_window, case.w));
@@ -1735,6 +1737,133 @@ mod mt {
                 rec.count("mt_dependency_cases");
             }
             run_and_report(&mut rec, &case, workers_for(k), &mut timeouts);
+        }
+        rec.finish();
+    }
+
+    /// The multi-threaded implementation on a current-thread tokio runtime with a paused clock: spawned tasks run on
+    /// the same thread, virtual time only advances when nothing is runnable, so "settle" (a 1 ns sleep) returns exactly
+    /// at quiescence and the progress oracle of the single-threaded runner applies: whatever can complete with the
+    /// gates opened so far must have been yielded, also while the source is still pending.
+    pub(super) fn run_case_paused(case: &Case) -> RunOut {
+        let sh = State::new(case, true);
+        let sh2 = Arc::clone(&sh);
+        let case2 = case.clone();
+        let r = vlib::run_paused(Duration::from_secs(3600), async move {
+            let case = case2;
+            let sh = sh2;
+            let cons = tokio::spawn(consumer(case.api, case.w, &sh));
+            let mut acts = case.acts.clone();
+            acts.push(Act::Settle);
+            for a in &acts {
+                match a {
+                    Act::Open(k) => open_gate(&sh, *k),
+                    Act::Src(k) => open_src(&sh, *k),
+                    Act::Spurious => tokio::task::yield_now().await,
+                    Act::Settle => {
+                        vlib::settle().await;
+                        let mut st = lock(&sh);
+                        st.stats.quiescence_checks += 1;
+                        if !cons.is_finished() {
+                            if case.api == Api::Stream {
+                                let p = st.completable_prefix();
+                                if st.out.len() < p {
+                                    let y = st.out.clone();
+                                    let (t, w, a) = (st.taken, st.w, st.avail());
+                                    st.flag(
+                                        "no_progress",
+                                        json!({"quiescent": true, "yielded": y, "completable_prefix": p, "pulled": t, "w": w,
+                                               "source_available": a, "dependency": case.variant}),
+                                    );
+                                }
+                            }
+                            if should_be_done(&st, &case) {
+                                let y = st.out.clone();
+                                st.flag(
+                                    "not_finished",
+                                    json!({"quiescent": true, "yielded": y, "all_required_tasks_completable": true,
+                                           "dependency": case.variant}),
+                                );
+                            }
+                        }
+                    }
+                }
+            }
+            if cons.is_finished() {
+                match cons.await {
+                    Ok(outcome) => {
+                        let mut st = lock(&sh);
+                        check_result(&mut st, &case, &outcome);
+                        (true, None)
+                    }
+                    Err(e) => (false, Some(if e.is_panic() { vlib::panic_message(&*e.into_panic()) } else { "consumer task cancelled".to_string() })),
+                }
+            } else {
+                cons.abort();
+                let _ = cons.await;
+                (false, None)
+            }
+        });
+        let st = lock(&sh);
+        match r {
+            vlib::Paused::Done((finished, panic)) => RunOut { viol: st.viol.clone(), stats: st.stats.clone(), finished, budget_exceeded: false, panic },
+            vlib::Paused::Quiescent => RunOut { viol: st.viol.clone(), stats: st.stats.clone(), finished: false, budget_exceeded: true, panic: None },
+        }
+    }
+
+    /// progress at quiescence for the spawning implementation: the stream cases of `verif_c15_mt_stream`
+    /// (all permutations for small n, gated and ungated source, dependency chains) with their settle points
+    #[test]
+    fn verif_c15_mt_quiescence() {
+        let env = vlib::env();
+        let mut rec = Recorder::new("C15", "verif_c15_mt_quiescence");
+        let only = replay_case();
+        count_cancel_panics();
+        let mut idx = 0usize;
+        let nmax = env.pick(4, 6);
+        for n in 0..=nmax {
+            for perm in perms(n) {
+                for w in [1usize, 2, 3, 5, 8] {
+                    for src_gated in [false, true] {
+                        idx += 1;
+                        if !env.mine(idx) || only.is_some_and(|c| c != idx) {
+                            continue;
+                        }
+                        let mut r = VRng::new(env.seed ^ 0x58, idx as u64);
+                        let case = Case {
+                            idx,
+                            api: Api::Stream,
+                            variant: if src_gated { "src_gated" } else { "plain" },
+                            n,
+                            w,
+                            specs: plain_specs(n),
+                            src_gated,
+                            acts: settled_acts(&perm, n, src_gated, &mut r),
+                        };
+                        let out = run_case_paused(&case);
+                        report(&mut rec, &case, &out, "tokio-current-thread-paused");
+                        rec.add("mt_tasks_cancelled_with_panic", cancel_panics_seen());
+                    }
+                }
+            }
+        }
+        let cases = env.pick(1500, 60_000);
+        for k in 0..cases {
+            let sidx = 1_000_000 + k;
+            if !env.mine(sidx) || only.is_some_and(|c| c != sidx) {
+                continue;
+            }
+            let mut case = seeded_case(env.seed ^ 0x9, k, 2, 40);
+            if case.api != Api::Stream {
+                continue;
+            }
+            case.idx = sidx;
+            if case.src_gated {
+                rec.count("mtq_gated_source_cases");
+            }
+            let out = run_case_paused(&case);
+            report(&mut rec, &case, &out, "tokio-current-thread-paused");
+            rec.add("mt_tasks_cancelled_with_panic", cancel_panics_seen());
         }
         rec.finish();
     }
